@@ -25,6 +25,7 @@
 #endif
 #include "../common/bits.h" /* ZSTD_highbit32, ZSTD_NbCommonBytes */
 #include "zstd_preSplit.h" /* ZSTD_SLIPBLOCK_WORKSPACESIZE */
+#include "../common/zstd_verif.h" /* ZSTD_VERIF_EV (no-op unless ZSTD_VERIF_TRACE) */
 
 #if defined (__cplusplus)
 extern "C" {
@@ -1119,6 +1120,7 @@ U32 ZSTD_window_correctOverflow(ZSTD_window_t* window, U32 cycleLog,
         assert(correction > 1<<28);
     }
 
+    ZSTD_VERIF_EV("winCorrect0", window, window->lowLimit, window->dictLimit, 0, 0, 0, 0);
     window->base += correction;
     window->dictBase += correction;
     if (window->lowLimit < correction + ZSTD_WINDOW_START_INDEX) {
@@ -1140,6 +1142,7 @@ U32 ZSTD_window_correctOverflow(ZSTD_window_t* window, U32 cycleLog,
     assert(window->dictLimit <= newCurrent);
 
     ++window->nbOverflowCorrections;
+    ZSTD_VERIF_EV("winCorrect", window, cycleLog, maxDist, curr, correction, window->lowLimit, window->dictLimit);
 
     DEBUGLOG(4, "Correction of 0x%x bytes to lowLimit=0x%x", correction,
              window->lowLimit);
@@ -1279,6 +1282,8 @@ U32 ZSTD_window_update(ZSTD_window_t* window,
         return contiguous;
     assert(window->base != NULL);
     assert(window->dictBase != NULL);
+    ZSTD_VERIF_EV("winUpd0", window, src == window->nextSrc, forceNonContiguous, window->lowLimit, window->dictLimit,
+                  (size_t)(window->nextSrc - window->base), srcSize);
     /* Check if blocks follow each other */
     if (src != window->nextSrc || forceNonContiguous) {
         /* not contiguous */
@@ -1294,6 +1299,8 @@ U32 ZSTD_window_update(ZSTD_window_t* window,
         contiguous = 0;
     }
     window->nextSrc = ip + srcSize;
+    ZSTD_VERIF_EV("winUpdMid", window, (ip+srcSize > window->dictBase + window->lowLimit) && (ip < window->dictBase + window->dictLimit),
+                  (ip+srcSize > window->dictBase) ? (size_t)((ip + srcSize) - window->dictBase) : 0, window->lowLimit, window->dictLimit, 0, 0);
     /* if input and dictionary overlap : reduce dictionary (area presumed modified by input) */
     if ( (ip+srcSize > window->dictBase + window->lowLimit)
        & (ip < window->dictBase + window->dictLimit)) {
@@ -1303,6 +1310,7 @@ U32 ZSTD_window_update(ZSTD_window_t* window,
         window->lowLimit = lowLimitMax;
         DEBUGLOG(5, "Overlapping extDict and input : new lowLimit = %u", window->lowLimit);
     }
+    ZSTD_VERIF_EV("winUpd1", window, contiguous, window->lowLimit, window->dictLimit, 0, 0, 0);
     return contiguous;
 }
 
